@@ -24,6 +24,13 @@ Eval(e, regs) ==
     [] e.e = "f" -> regs[e.r].fs[e.i + 1]
     [] e.e = "hb" -> [k |-> "bin", b |-> e.b]      \* a binary built at run time (a heap slot in the code)
 
+(* an expression that mentions no register has a value the observer can compute by itself *)
+RECURSIVE Closed(_)
+Closed(e) == CASE e.e = "c" -> TRUE
+               [] e.e = "hb" -> TRUE
+               [] e.e = "t" -> \A i \in 1..Len(e.fs) : Closed(e.fs[i])
+               [] OTHER -> FALSE
+
 (* does a value carry a binary (which lives on an executor heap in the code)? *)
 RECURSIVE HasBin(_)
 HasBin(v) == CASE v.k = "bin" -> TRUE
